@@ -73,6 +73,14 @@ func (r6 c06) Run(c *Ctx, i int) CaseResult {
 			}
 		}
 	}()
+	// stitching a step's answer into the response comes back whatever is already there (another step's part of the
+	// same object, a list of such parts): 6 generated insertion sequences per case
+	for k := 0; k < 6; k++ {
+		if f := InsertReturns(c, c.Rand(i*10+k+67000000)); len(f) > 0 {
+			res = CaseResult{ID: fmt.Sprintf("gen:%d", i), Key: fmt.Sprint("insert", i), Nontrivial: true, Fails: f}
+			return res
+		}
+	}
 	for k := 0; k < reps; k++ {
 		res = r6.once(c, i, k)
 		for key, v := range res.Counters {
